@@ -87,7 +87,7 @@ def main(run):
     run.extra["accepted_by_both"] = both
     for k, v in feats.items():
         run.dist[k] = v
-    run.rule = ("type-directed random FerretCore programs (ints of 8 widths, bool, functions, recursion, loops, casts), each compiled for "
+    run.rule = ("type-directed random FerretCore programs (ints of 8 widths, bool, by-value structs with integer fields, methods with value receivers, functions, recursion, while, ranges with inclusive bounds and steps, match, casts), each compiled for "
                 "native and wasm and executed (node + runtime/wasm/runtime.js); distinct = distinct source text")
     run.assumptions = ["V8/node and the wasm binary encoder are trusted", "floats compared numerically (none generated in FerretCore v1)"]
     # third leg: the reference model on the native outputs (same comparison C01 does), so that 'both wrong the same way' is visible
